@@ -83,3 +83,12 @@ TEXT.update({
                 design_ref='DESIGN.md section 5, C10', level_note='Trusted: sim backend stub, trap-MMU, ASan for the application heap. Real code: all of /repo/code/include core.',
                 technique='deterministic simulation: seeded bulk operations with injected allocation/grant faults, byte-footprint + trap-MMU read-set oracle, shrinking, replay'),
 })
+
+TEXT.update({
+    'C19': dict(level_text=('Fault enumeration: every single abort position in every tree of nested crossings up to depth 3 / width 2 (24 shapes x 2 backends x 1-2 sandboxes) is '
+                            'injected and the recorded notification sequence and timing vector are compared with the bracket word and crossing count of a reference model; plus seeded '
+                            'larger trees with two aborts, aborts caught by outer callbacks and transition-state changes inside crossings. Three builds (hooks, timing, both). '
+                            'Exhaustive only for the stated single-abort grid.'),
+                design_ref='DESIGN.md section 5, C19', level_note='Trusted: reference bracket model, sim backend stub, simulated clock. Real code: rlbox_sandbox.hpp invoke path and callback interceptor, noop backend.',
+                technique='deterministic simulation: abort injection at every crossing position of nested invoke/callback trees, history check against a bracket grammar, simulated clock, shrinking, replay'),
+})
